@@ -49,6 +49,10 @@ class Verifier(Engine, StmtMixin, ExprMixin, CallMixin, BuiltinMixin):
 
     def instantiate(self, hint, st):
         """explicit instance of a registered axiom: (name, {var: spec expression}) -> z3 Bool"""
+        if isinstance(hint, str):
+            if not hint.strip().startswith('unfold('):
+                raise Unsupported('a textual hint must be an unfold(...) of a spec definition')
+            return self.ev_spec(hint, st)
         name, binding = hint
         for an, text, vars_, source, q in self.reg.axioms:
             if an == name:
